@@ -14,7 +14,8 @@ import common, gen, configs
 
 LEVEL = "proof"
 THEOREMS = ["Mistune.escape_no_specials", "Mistune.safeEntity_no_specials", "Mistune.escapeUrl_attr_safe", "Mistune.quote_ok", "Mistune.escape_eq_flatMap",
-            "Mistune.templates_ok", "Mistune.templates_none_opaque", "Mistune.evalPieces_safe", "Mistune.evalTmpl_safe", "Mistune.renderTok_safe", "Mistune.render_safe"]
+            "Mistune.templates_ok", "Mistune.templates_none_opaque", "Mistune.evalPieces_safe", "Mistune.evalTmpl_safe", "Mistune.renderTok_safe", "Mistune.render_safe",
+            "Mistune.evalTmpl_tagged", "Mistune.renderTok_tagged", "Mistune.render_tagged", "Mistune.templates_tagOk", "Mistune.templates_nodup", "Mistune.tagTable_wf", "Mistune.templateIntArgs_eq"]
 
 CANARIES = ['onq9=1//', '<xq9 yq9="1">', '"><xq9 onq9="1">', "'><xq9>", '" onq9="1', "</p><xq9>", "-->", "<!--", "<script>xq9</script>", "&lt;xq9&gt;", '\\"<xq9>', "`<xq9>`", "javascript:xq9"]
 # free-text fields of tokens (data that comes verbatim from the input); alphabet-restricted fields (ruby raw/rt, heading id,
@@ -146,6 +147,8 @@ def token_level(ctx, docs, cfgs):
                 # attribute the leak to the injected field whose canary got through: re-render with one field at a time is costly; name all
                 fields = sorted(set(log))
                 sig = "inject:" + (fields[0] if len(fields) == 1 else guess_field(hm, toks, state, fields))
+                if 'class="error"' in out and not analyse(re.sub(r'(<div class="error"><pre>).*?(</pre></div>\n)', r"\1\2", out, flags=re.S))[0]:
+                    sig = "inject:block_error.raw"        # markup inside the unescaped text of an error block (the document's own or injected)
                 ctx.fail(sig, "escape=%s config %s: a canary injected into token fields %s reaches the output as markup (%s)" % (c.get("escape"), c["name"], fields, bad[0]),
                          {"config": c, "doc": d, "fields": fields, "output": out[:600]})
     return n
